@@ -639,7 +639,7 @@ func init() {
 			{Name: "concurrent histories checked with porcupine", N: Fixed(400, 30000), Run: func(c *Ctx, i int, r *gen.R) { withProcs(c, func() { c17Concurrent(c, i, r) }) }},
 			{Name: "sequential histories vs a map", N: Fixed(200, 10000), Run: c17Sequential},
 			{Name: "fail-closed probes", N: Fixed(120, 3000), Run: c17FailClosed},
-			{Name: "first registry operations of a fresh process (7 scripts x 6 built-in names, one child process each)", Exhaustive: true, N: Fixed(42, 42), Run: c17Fresh},
+			{Name: "first registry operations of a fresh process (8 scripts x 6 built-in names, one child process each)", Exhaustive: true, N: Fixed(48, 48), Run: c17Fresh},
 		},
 	})
 }
@@ -650,7 +650,7 @@ func init() {
 
 func init() { auxModes["c17fresh"] = c17FreshChild }
 
-var c17FreshModes = []string{"overwrite-builtin-first", "register-new-first", "list-first", "named-unknown-first", "overwrite-then-list", "same-value-again-then-change", "unknown-names-set-while-registrations-go-on"}
+var c17FreshModes = []string{"overwrite-builtin-first", "register-new-first", "list-first", "named-unknown-first", "overwrite-then-list", "same-value-again-then-change", "unknown-names-set-while-registrations-go-on", "lookups-of-different-names-at-once"}
 
 // c17FreshChild performs the scripted first operations and prints "OK" or "BAD: <what>".
 func c17FreshChild(args []string) int {
@@ -753,6 +753,63 @@ func c17FreshChild(args []string) int {
 				for k := 0; k < 20000; k++ {
 					decoration.RegisterDecorationName(fmt.Sprintf("busy-%s-%d-%d", name, g, k%50), c17Value(fmt.Sprintf("c%d-%d", g, k)))
 					_ = decoration.RegisteredDecorationNames()
+				}
+			}(g)
+		}
+		wg.Wait()
+		if badMsg != "" {
+			return bad("%s", badMsg)
+		}
+	case "lookups-of-different-names-at-once":
+		// six goroutines look up different names at once - two registered ones with quite different decorations, a
+		// built-in, and names never registered - in a binary built WITHOUT the race detector (code may be compiled
+		// differently there): every lookup returns the decoration registered under THAT name, whole, or the empty
+		// one; a table set to a never registered name reports the error and refuses to render
+		da, db := c17Value("aaaaaaaa"), decoration.Decoration{Horizontal: "k", Vertical: "h", CrossPiece: "k"}
+		db.Populate()
+		na, nb := "concurrent-a-"+name, "concurrent-b-"+name
+		decoration.RegisterDecorationName(na, da)
+		decoration.RegisterDecorationName(nb, db)
+		builtin := decoration.Named(name)
+		var wg sync.WaitGroup
+		var badMu sync.Mutex
+		badMsg := ""
+		setBad := func(m string) { badMu.Lock(); badMsg = m; badMu.Unlock() }
+		for g := 0; g < 6; g++ {
+			wg.Add(1)
+			go func(g int) {
+				defer wg.Done()
+				tt := texttable.New()
+				tt.AddRowItems("x")
+				for k := 0; k < 60000; k++ {
+					switch (g + k) % 5 {
+					case 0:
+						if d := decoration.Named(na); d != da {
+							setBad(fmt.Sprintf("Named(%q) returned a decoration that was never registered under it (Horizontal %q CrossPiece %q) while other names were being looked up", na, d.Horizontal, d.CrossPiece))
+							return
+						}
+					case 1:
+						if d := decoration.Named(nb); d != db {
+							setBad(fmt.Sprintf("Named(%q) returned a decoration that was never registered under it (Horizontal %q CrossPiece %q) while other names were being looked up", nb, d.Horizontal, d.CrossPiece))
+							return
+						}
+					case 2:
+						if d := decoration.Named(name); d != builtin {
+							setBad(fmt.Sprintf("Named(%q) changed while other names were being looked up", name))
+							return
+						}
+					case 3:
+						if d := decoration.Named(fmt.Sprintf("never-%d-%d", g, k%7)); d != decoration.EmptyDecoration {
+							setBad(fmt.Sprintf("Named of a never registered name returned a decoration (Horizontal %q) while other names were being looked up", d.Horizontal))
+							return
+						}
+					default:
+						if _, err := tt.SetDecorationNamed(fmt.Sprintf("never-%d-%d", g, k%7)); err == nil {
+							out, _ := tt.Render()
+							setBad(fmt.Sprintf("SetDecorationNamed of a never registered name returned no error while other names were being looked up; the table renders %q", out))
+							return
+						}
+					}
 				}
 			}(g)
 		}
